@@ -808,6 +808,101 @@ theorem C08_value_mask (num : Nat) (v : Int) (hn : num ≤ 64) :
   refine ⟨e, ?_⟩
   unfold valueMask; rw [Nat.and_two_pow_sub_one_eq_mod]; exact Nat.mod_lt _ (Nat.two_pow_pos num)
 
+/-! ### the read-modify-write expressions of channel.hpp, re-translated on every run, EQUAL the hand model
+
+  Instantiations whose arithmetic is unsigned from end to end (`uint32_t` field with an 8-bit `integer_t`,
+  `uint64_t` field with a 32-bit `integer_t`).  For every field content, value, first bit and width. -/
+
+private theorem cast_shl32 (a first : Nat) : (a : Int) * 2 ^ first % 4294967296 = ((a * 2 ^ first % 2 ^ 32 : Nat) : Int) := by
+  rw [Int.natCast_emod, Int.natCast_mul, Int.natCast_pow]; rfl
+private theorem cast_shl64 (a first : Nat) : (a : Int) * 2 ^ first % 18446744073709551616 = ((a * 2 ^ first % 2 ^ 64 : Nat) : Int) := by
+  rw [Int.natCast_emod, Int.natCast_mul, Int.natCast_pow]; rfl
+private theorem compl32 (m : Nat) (hm : m < 4294967296) : ((-(m : Int) - 1) % 4294967296).toNat = 4294967296 - (m + 1) := by omega
+private theorem compl64 (m : Nat) (hm : m < 18446744073709551616) :
+    ((-(m : Int) - 1) % 18446744073709551616).toNat = 18446744073709551616 - (m + 1) := by omega
+
+/-- `packed_dynamic_channel_reference<uint32_t,num,true>::set_unsafe` (generated) is the model's `setD 32` -/
+theorem C08_gen_dyn_set_u32 (f v first num : Nat) :
+    dyn_set_u32 f v first ((2 ^ num - 1 : Nat) : Int) = ((setD 32 f first num v : Nat) : Int) := by
+  unfold dyn_set_u32 setD setWith dynMask notW
+  simp only [Int.toNat_natCast, Nat.shiftLeft_eq]
+  have hm : (2 ^ num - 1) * 2 ^ first % 2 ^ 32 < 4294967296 := Nat.mod_lt _ (by decide)
+  rw [cast_shl32, cast_shl32]
+  generalize (2 ^ num - 1) * 2 ^ first % 2 ^ 32 = m at *
+  simp only [Int.toNat_natCast, Int.ofNat_eq_natCast, compl32 m hm]
+  congr 1
+  show (f &&& (4294967296 - (m + 1))) ||| (v * 2 ^ first % 2 ^ 32) = ((f &&& 2 ^ 32 - (m + 1)) ||| v * 2 ^ first) % 2 ^ 32
+  have hlt : f &&& (4294967296 - (m + 1)) < 2 ^ 32 := Nat.lt_of_le_of_lt Nat.and_le_right (by omega)
+  rw [Nat.or_mod_two_pow, Nat.mod_eq_of_lt hlt]
+
+theorem C08_gen_dyn_set_u64 (f v first num : Nat) :
+    dyn_set_u64 f v first ((2 ^ num - 1 : Nat) : Int) = ((setD 64 f first num v : Nat) : Int) := by
+  unfold dyn_set_u64 setD setWith dynMask notW
+  simp only [Int.toNat_natCast, Nat.shiftLeft_eq]
+  have hm : (2 ^ num - 1) * 2 ^ first % 2 ^ 64 < 18446744073709551616 := Nat.mod_lt _ (by decide)
+  rw [cast_shl64, cast_shl64]
+  generalize (2 ^ num - 1) * 2 ^ first % 2 ^ 64 = m at *
+  simp only [Int.toNat_natCast, Int.ofNat_eq_natCast, compl64 m hm]
+  congr 1
+  show (f &&& (18446744073709551616 - (m + 1))) ||| (v * 2 ^ first % 2 ^ 64) = ((f &&& 2 ^ 64 - (m + 1)) ||| v * 2 ^ first) % 2 ^ 64
+  have hlt : f &&& (18446744073709551616 - (m + 1)) < 2 ^ 64 := Nat.lt_of_le_of_lt Nat.and_le_right (by omega)
+  rw [Nat.or_mod_two_pow, Nat.mod_eq_of_lt hlt]
+
+/-- both `get()` specialisations of the run-time first-bit reference are the model's `getD` (channels up to 8 bits in a
+    `uint32_t` field; 17..32 bits in a `uint64_t` field) -/
+theorem C08_gen_dyn_get_u32 (f first num : Nat) (h8 : num ≤ 8) :
+    dyn_get_u32 f first ((2 ^ num - 1 : Nat) : Int) = ((getD 32 f first num : Nat) : Int)
+    ∧ dyn_get_const_u32 f first ((2 ^ num - 1 : Nat) : Int) = ((getD 32 f first num : Nat) : Int) := by
+  have hc : carrierBits num = 8 := by unfold carrierBits; simp [h8]
+  unfold dyn_get_u32 dyn_get_const_u32 getD getWith dynMask
+  simp only [Int.toNat_natCast, Nat.shiftLeft_eq, Nat.shiftRight_eq_div_pow, hc]
+  rw [cast_shl32]
+  simp only [Int.toNat_natCast, Int.ofNat_eq_natCast]
+  constructor <;> (rw [Int.natCast_emod, Int.natCast_ediv, Int.natCast_pow]; rfl)
+
+theorem C08_gen_dyn_get_u64 (f first num : Nat) (h17 : 17 ≤ num) (h32 : num ≤ 32) :
+    dyn_get_u64 f first ((2 ^ num - 1 : Nat) : Int) = ((getD 64 f first num : Nat) : Int)
+    ∧ dyn_get_const_u64 f first ((2 ^ num - 1 : Nat) : Int) = ((getD 64 f first num : Nat) : Int) := by
+  have hc : carrierBits num = 32 := by
+    unfold carrierBits
+    have a : ¬ num ≤ 8 := by omega
+    have b : ¬ num ≤ 16 := by omega
+    simp [a, b, h32]
+  unfold dyn_get_u64 dyn_get_const_u64 getD getWith dynMask
+  simp only [Int.toNat_natCast, Nat.shiftLeft_eq, Nat.shiftRight_eq_div_pow, hc]
+  rw [cast_shl64]
+  simp only [Int.toNat_natCast, Int.ofNat_eq_natCast]
+  constructor <;> (rw [Int.natCast_emod, Int.natCast_ediv, Int.natCast_pow]; rfl)
+
+/-- `packed_channel_reference<uint32_t,first,num,_>`: `channel_mask` (both specialisations), `set_unsafe`, `get` (both) -/
+theorem C08_gen_static_u32 (f v first num : Nat) (h8 : num ≤ 8) :
+    stat_mask_u32 ((2 ^ num - 1 : Nat) : Int) first = ((chanMask 32 first num : Nat) : Int)
+    ∧ stat_mask_const_u32 ((2 ^ num - 1 : Nat) : Int) first = ((chanMask 32 first num : Nat) : Int)
+    ∧ stat_set_u32 f v first ((chanMask 32 first num : Nat) : Int) = ((setF 32 f first num v : Nat) : Int)
+    ∧ stat_get_u32 f first ((chanMask 32 first num : Nat) : Int) = ((getF 32 f first num : Nat) : Int)
+    ∧ stat_get_const_u32 f first ((chanMask 32 first num : Nat) : Int) = ((getF 32 f first num : Nat) : Int) := by
+  have hc : carrierBits num = 8 := by unfold carrierBits; simp [h8]
+  have hmask : ∀ a : Nat, (a : Int) * 2 ^ first % 4294967296 = ((a * 2 ^ first % 2 ^ 32 : Nat) : Int) := fun a => cast_shl32 a first
+  refine ⟨?_, ?_, ?_, ?_, ?_⟩
+  · unfold stat_mask_u32 chanMask; simp only [Int.toNat_natCast, Nat.shiftLeft_eq]; exact hmask _
+  · unfold stat_mask_const_u32 chanMask; simp only [Int.toNat_natCast, Nat.shiftLeft_eq]; exact hmask _
+  · unfold stat_set_u32 setF setWith notW
+    have hm : chanMask 32 first num < 4294967296 := by unfold chanMask; exact Nat.mod_lt _ (by decide)
+    generalize chanMask 32 first num = m at *
+    simp only [Int.toNat_natCast, Nat.shiftLeft_eq]
+    rw [cast_shl32]
+    simp only [Int.toNat_natCast, Int.ofNat_eq_natCast, compl32 m hm]
+    congr 1
+    show (f &&& (4294967296 - (m + 1))) ||| (v * 2 ^ first % 2 ^ 32) = ((f &&& 2 ^ 32 - (m + 1)) ||| v * 2 ^ first) % 2 ^ 32
+    have hlt : f &&& (4294967296 - (m + 1)) < 2 ^ 32 := Nat.lt_of_le_of_lt Nat.and_le_right (by omega)
+    rw [Nat.or_mod_two_pow, Nat.mod_eq_of_lt hlt]
+  · unfold stat_get_u32 getF getWith
+    simp only [Int.toNat_natCast, Nat.shiftRight_eq_div_pow, hc, Int.ofNat_eq_natCast]
+    rw [Int.natCast_emod, Int.natCast_ediv, Int.natCast_pow]; rfl
+  · unfold stat_get_const_u32 getF getWith
+    simp only [Int.toNat_natCast, Nat.shiftRight_eq_div_pow, hc, Int.ofNat_eq_natCast]
+    rw [Int.natCast_emod, Int.natCast_ediv, Int.natCast_pow]; rfl
+
 /-! ### non-vacuity: concrete non-trivial instances satisfy the hypotheses and exercise the statements -/
 
 -- rgb565 in a uint16_t, background 0xA5C3, green (first 5, 6 bits) := 42
